@@ -8,6 +8,8 @@ content is copied, never re-indented; every text node goes through the escaping 
 the HTML parser (outside the model): it is decided by the oracle (format twice, parse before/after) and stays PARTIAL.
 -/
 import Vuego.Model.FmtTree
+import Vuego.Lemmas.FmtRaw
+import Vuego.Lemmas.FmtInline
 namespace Vuego.Props.C19
 open Go Vuego Vuego.Fmt Vuego.FmtTree
 
@@ -93,6 +95,56 @@ theorem raw_text_content (w d : Nat) (attrs : List Attr) (kids : List Node) (h :
   unfold formatNode
   simp [hb]
 
+/-- RAW TEXT IS STABLE UNDER RE-FORMATTING. What the formatter writes between the tags of a script/style element is
+    `"\n" ++ content ++ "\n" ++ indentation` with `content` = the trimmed text. Whatever the original text was and whatever the indentation is
+    (any blank line: spaces and tabs, no newline), trimming that again gives `content` back: a second pass over the formatter's own
+    output leaves the element's text unchanged, at any depth. (The HTML parser returns raw text verbatim — not part of the model.) -/
+theorem raw_text_round_trip (s ind : Str) (hind : blankLine ind = true) (hnl : '\n' ∉ ind) (hne : trimRawContent s ≠ []) :
+    trimRawContent ('\n' :: trimRawContent s ++ '\n' :: ind) = trimRawContent s := by
+  rw [trimRawContent_eq s] at hne ⊢
+  generalize hK : trimBlank (splitChar '\n' s) = K at hne ⊢
+  have hKne : K ≠ [] := by intro h; subst h; exact hne rfl
+  have hpieces : ∀ l ∈ K, '\n' ∉ l := by
+    intro l hl
+    have hsub : l ∈ splitChar '\n' s := by
+      rw [← hK] at hl
+      unfold trimBlank at hl
+      have h1 := (List.dropWhile_suffix (p := blankLine) (l := (List.dropWhile blankLine (splitChar '\n' s)).reverse)).subset (List.mem_reverse.mp hl)
+      exact (List.dropWhile_suffix (p := blankLine) (l := splitChar '\n' s)).subset (List.mem_reverse.mp h1)
+    exact splitChar_pieces '\n' s l hsub
+  rw [trimRawContent_eq]
+  have hsplit : splitChar '\n' ('\n' :: joinWith ['\n'] K ++ '\n' :: ind) = [] :: K ++ [ind] := by
+    have h0 : splitChar '\n' ('\n' :: (joinWith ['\n'] K ++ '\n' :: ind)) = [] :: splitChar '\n' (joinWith ['\n'] K ++ '\n' :: ind) := by
+      simp [splitChar]
+    rw [List.cons_append, h0, splitChar_join_append '\n' K ind hKne hpieces, splitChar_no_sep '\n' ind hnl]
+    simp
+  rw [hsplit, trimBlank_wrapped K ind hKne (fun x r h => trimBlank_first _ x r (hK ▸ h)) (fun x r h => trimBlank_last _ x r (hK ▸ h)) hind]
+
+/-- INLINE TEXT IS STABLE UNDER RE-FORMATTING: the whitespace normalisation applied to text inside one-line content is idempotent, for every
+    string (any mix of Unicode white space, any number of words) -/
+theorem inline_text_normalisation_idempotent (s : Str) : normalizeInlineText (normalizeInlineText s) = normalizeInlineText s :=
+  normalizeInlineText_idem s
+
+/-- … and it only ever changes white space: the words of the text (`strings.Fields`) are the same before and after -/
+theorem inline_text_words_preserved (s : Str) (h : trimSpace s ≠ []) : fields (trimSpace (normalizeInlineText s)) = fields (trimSpace s) := by
+  have hb : (trimSpace s == []) = false := by simpa using h
+  have hW : ∀ w ∈ fields (trimSpace s), Word w := fields_words _
+  have hWne : fields (trimSpace s) ≠ [] := by
+    obtain ⟨c, hc, hcs⟩ := exists_nonspace_of_trim_ne s h
+    exact fieldsAux_ne_nil _ [] (Or.inr ⟨c, hc, hcs⟩)
+  obtain ⟨hhead, hlast⟩ := join_head_last _ hWne hW
+  have key : ∀ pre post : Str, (∀ x ∈ pre, isSpace x = true) → (∀ x ∈ post, isSpace x = true) →
+      fields (trimSpace (pre ++ joinWith [' '] (fields (trimSpace s)) ++ post)) = fields (trimSpace s) := by
+    intro pre post hp hq
+    rw [trimSpace_margins pre _ post hp hq hhead hlast, fields_join _ hW]
+  unfold normalizeInlineText
+  simp only [hb, Bool.false_eq_true, ↓reduceIte]
+  by_cases h1 : (s.head?.map isSpace).getD false = true <;> by_cases h2 : (s.getLast?.map isSpace).getD false = true
+  · simpa [h1, h2] using key [' '] [' '] (by simp [isSpace_space]) (by simp [isSpace_space])
+  · simpa [h1, h2] using key [' '] [] (by simp [isSpace_space]) (by simp)
+  · simpa [h1, h2] using key [] [' '] (by simp) (by simp [isSpace_space])
+  · simpa [h1, h2] using key [] [] (by simp) (by simp)
+
 /-- block text: trimmed, escaped once, on a line of its own -/
 theorem block_text_line (w d : Nat) (t : Str) (h : trimSpace t ≠ []) :
     formatNode w d (.text t) = indentOf w d ++ escText (trimSpace t) ++ ['\n'] := by
@@ -114,6 +166,9 @@ theorem source_lists_sample :
       ∧ isVoid "div".toList = false := by decide
 
 /-! non-vacuity: the walk on a small tree (two spaces per level) -/
+example : trimRawContent "\n\n  a {\n    b\n  }\n \n".toList = "  a {\n    b\n  }".toList
+    ∧ trimRawContent ('\n' :: "  a {\n    b\n  }".toList ++ '\n' :: "    ".toList) = "  a {\n    b\n  }".toList := by decide
+
 example : formatKids 2 0 [.elem "div".toList [] [.text "\n  ".toList, .elem "p".toList [] [.text " a ".toList, .elem "b".toList [] [.text "x".toList]], .text "\n".toList, .elem "br".toList [] []]] =
     "<div>\n  <p>a <b>x</b></p>\n  <br>\n</div>\n".toList := by decide
 
